@@ -76,7 +76,7 @@ func (e *Exec) callFunction(st *State, fr *Frame, site ssa.Instruction, fn *ssa.
 	name := shortName(fn)
 	own := fn.Pkg != nil && ownPkg(fn.Pkg.Pkg) || (fn.Pkg == nil && fn.Synthetic != "" && len(fn.Blocks) > 0 && ownSynthetic(fn))
 	if own {
-		if c, ok := e.db.funcs[name]; ok && !c.Inline && !(fn == e.top && false) {
+		if c, ok := e.db.funcs[name]; ok && !c.Inline && !(c.InlineLit && literalVariadic(fn, args)) {
 			e.usedCtr[name] = true
 			return e.applyContract(st, fr, site, c, fn, args, k)
 		}
@@ -438,3 +438,13 @@ func (e *Exec) havocMod(st *State, mod map[string]Sort) {
 }
 
 var epochCtr int
+
+// literalVariadic: the variadic argument is a slice of literal length (packed at
+// the call site), so loops over it unroll
+func literalVariadic(fn *ssa.Function, args []Val) bool {
+	if !fn.Signature.Variadic() || len(args) == 0 {
+		return false
+	}
+	t, ok := args[len(args)-1].(*Term)
+	return ok && t.S == SSlice && SlLen(t).IsLit()
+}
